@@ -168,6 +168,14 @@ func (s *HiddenFS) Remove(name string) error {
 // RemoveAll removes a directory path and any children it contains. It
 // does not fail if the path does not exist (return nil).
 func (s *HiddenFS) RemoveAll(name string) error {
+	if name != "" {
+		// the walk below joins (and thereby cleans) the path of every entry under name, and the
+		// directories are removed deepest first by their number of separators: name itself has
+		// to be in cleaned form as well, otherwise a spelling with extra separators or dots
+		// (//./dir, /x/../dir) sorts before its own children and its removal fails with
+		// "directory not empty". (The empty name stays empty: nothing to remove.)
+		name = filepath.Clean(name)
+	}
 	hidden, err := s.isHidden(name)
 	if err != nil {
 		return &os.PathError{Op: "remove_all", Path: name, Err: wrapErrHiddenCheckFailed(err)}
